@@ -187,6 +187,14 @@ func rtSamples(out *rtOutcome, k int) []interface{} {
 func rtPart(run *harness.Run, scenario string, quickCases, thoroughCases int, floors map[string]int) ([]harness.Finding, map[string]interface{}, []string) {
 	cases := run.Pick(quickCases, thoroughCases)
 	out := runRT(run, scenario, cases, 4, 8)
+	perKey := map[string]int{}
+	for _, r := range out.results {
+		for k, v := range r.Stats {
+			if v > 0 {
+				perKey[k]++
+			}
+		}
+	}
 	ev := map[string]interface{}{
 		"rt_scenario":            scenario,
 		"rt_cases":               len(out.results),
@@ -196,6 +204,9 @@ func rtPart(run *harness.Run, scenario string, quickCases, thoroughCases int, fl
 		"rt_recovered_panics":    out.panics,
 		"rt_children_aborted":    out.aborted,
 		"rt_samples":             rtSamples(out, 3),
+	}
+	for k, v := range perKey {
+		ev["rt_cases_with_"+k] = v
 	}
 	inc := out.inconcl
 	for k, min := range floors {
@@ -215,8 +226,8 @@ func init() {
 			fs, ev, inc := rtPart(run, scenario, q, t, floors)
 			counters := ev["rt_counters"].(map[string]int)
 			cov := map[string]interface{}{
-				"evaluations":         ev["rt_cases"],
-				"distinct_nontrivial": counters[nontrivialKey],
+				"evaluations":         counters[nontrivialKey],
+				"distinct_nontrivial": ev["rt_cases_with_"+nontrivialKey],
 				"rule":                rule,
 				"samples":             ev["rt_samples"],
 			}
@@ -235,10 +246,10 @@ func init() {
 		}
 	}
 	rtOnly("C16", "stress", 40, 1500, map[string]int{"C16 shutdowns judged": 100},
-		"live networks of 4..5 real nodes (loss, duplication, delay, 2..4 ms real election timers, commit failures, node-sync bursts, log-keyed delays at the hand-off points) cancelled at an arbitrary moment of the run: WaitUntilShutdown returns (20 s watchdog with goroutine evidence), API calls with the cancelled context return, nothing is sent / called back afterwards, no library goroutine is left (covers an election timer left armed); distinct_nontrivial = node shutdowns judged",
+		"live networks of 4..5 real nodes (loss, duplication, delay, 2..4 ms real election timers, commit failures, node-sync bursts, log-keyed delays at the hand-off points) cancelled at an arbitrary moment of the run: WaitUntilShutdown returns (20 s watchdog with goroutine evidence), API calls with the cancelled context return, nothing is sent / called back afterwards, no library goroutine is left (covers an election timer left armed); evaluations = node shutdowns judged; distinct_nontrivial = distinct randomized runs (PRNG-determined configuration and timing) in which a shutdown was judged",
 		"C16 shutdowns judged")
 	rtOnly("C14", "sync", 96, 4000, map[string]int{"C14 batches judged": 300, "C14 UpdateState calls": 600, "C14 rounds entered by sync": 100},
-		"one real node (main loop + worker, leader of view 0) given sequences of UpdateState heights: stale, equal, newer, bursts of 2..6 back-to-back (increasing / repeated / decreasing) while RequestNewBlockProposal / RequestOrderedCommittee park until their context is cancelled and dawdle before returning, log-keyed delays between 'cancel contexts' and 'forward'; judged after 64 witnessed worker iterations with nothing else to do: the newest eligible sync took effect, stale syncs changed nothing, no PREPREPARE(view 0) / proposal request for a round entered by sync, UpdateState returns; distinct_nontrivial = batches judged",
+		"one real node (main loop + worker, leader of view 0) given sequences of UpdateState heights: stale, equal, newer, bursts of 2..6 back-to-back (increasing / repeated / decreasing) while RequestNewBlockProposal / RequestOrderedCommittee park until their context is cancelled and dawdle before returning, log-keyed delays between 'cancel contexts' and 'forward'; judged after 64 witnessed worker iterations with nothing else to do: the newest eligible sync took effect, stale syncs changed nothing, no PREPREPARE(view 0) / proposal request for a round entered by sync, UpdateState returns; evaluations = batches judged; distinct_nontrivial = distinct randomized cases with at least one judged batch",
 		"C14 batches judged")
 }
 
